@@ -289,6 +289,14 @@ pub fn alphabet(name: &str) -> Vec<Op> {
             Op::Union(g(0, 1), g(1, 0)),
             Op::Union(b(f(0, 1), h(0)), g(0, 1)),
             Op::Union(b(f(0, 1), h(0)), b(h(0), f(0, 1))),
+            // a parent that uses both classes of a later union whose analysis data differ
+            Op::Add(b(h(0), u(f(0, 1)))),
+            Op::Union(h(0), u(f(0, 1))),
+            Op::Add(b(f(0, 1), cc())),
+            Op::Union(f(0, 1), cc()),
+            // one slot used twice by sibling children
+            Op::Add(b(var(0), var(0))),
+            Op::Add(b(var(0), var(1))),
         ],
         "MICRO" => vec![
             Op::Union(t3(0, 1, 2), t3(1, 2, 0)),       // 3-cycle
